@@ -22,7 +22,7 @@ ASSUMPTIONS = ["the R^3 coordinate formulas in vf/vecsem.py define the meaning o
                "assignments are random reals in [-2,2] (scalars bounded away from 0); agreement at 3 points of a polynomial/"
                "algebraic identity is taken as agreement (Schwartz-Zippel)"]
 N = {"quick": dict(trees=3200, depth=3, deriv=320), "thorough": dict(trees=96000, depth=5, deriv=9600)}
-MIN_REACH = {"quick": {"value_compared": 2500, "deriv_compared": 200, "mode:auto": 1000, "mode:doit": 800},
+MIN_REACH = {"quick": {"shared_display_names": 400, "deriv_order2": 40, "value_compared": 2500, "deriv_compared": 200, "mode:auto": 1000, "mode:doit": 800},
              "thorough": {"value_compared": 60000, "deriv_compared": 6000}}
 SHARD_TIMEOUT = {"quick": 900, "thorough": 3000}
 NUMS = ["-3", "-2", "-1", "2", "3", "1/2", "-1/3"]
@@ -142,7 +142,8 @@ def make_symbols(case):
     from symplyphysics import Symbol
     from symplyphysics.core.experimental.vectors import VectorSymbol
     nv, ns = case["nv"], case["ns"]
-    pool = [VectorSymbol(f"p{j}") for j in range(case["pool"])]
+    names = case.get("names") or [f"p{j}" for j in range(case["pool"])]
+    pool = [VectorSymbol(n) if n else VectorSymbol() for n in names]
     by_id = sorted(pool, key=id)
     V = [by_id[k] for k in case["rank"]]
     S = []
@@ -215,6 +216,8 @@ def run_value_case(case, rec, r):
     rec.case((tree, case["rank"], mode), nontrivial=nontriv and has_product(tree))
     rec.hit("value_compared")
     rec.hit("mode:" + mode)
+    if case.get("names") and len(set(case["names"])) < len(case["names"]):
+        rec.hit("shared_display_names")
     rec.extra.setdefault("rank_perms", {})
     key = "".join(map(str, case["rank"]))
     rec.extra["rank_perms"][key] = rec.extra["rank_perms"].get(key, 0) + 1
@@ -249,53 +252,75 @@ def run_deriv_case(case, rec, r):
                 else:
                     S.append(Symbol(f"c{j}", real=True))
             e = build(tree, V, S, None)
-            de = sympy.sympify(e).diff(t)
+            order = case.get("order", 1)
+            de = sympy.sympify(e).diff(t, order)
     except TimeoutError:
-        rec.violation("deriv-timeout:" + skeleton(tree), "differentiation did not terminate within 30 s", case)
+        rec.violation(f"deriv-timeout:order{case.get('order', 1)}:" + skeleton(tree), "differentiation did not terminate within 30 s", case)
         return
     except NotImplementedError as x:
         rec.inconc("diff raises NotImplementedError", {"tree": tree, "err": str(x)})
         return
     except Exception as x:  # pylint: disable=broad-except
-        rec.violation(f"deriv-raises:{type(x).__name__}:{skeleton(tree)}", f"diff raised {type(x).__name__}: {str(x)[:150]}", case)
+        rec.violation(f"deriv-raises:{type(x).__name__}:order{case.get('order', 1)}:{skeleton(tree)}", f"diff raised {type(x).__name__}: {str(x)[:150]}", case)
         return
     ok = True
     nontriv = False
     for _ in range(3):
         t0 = mpmath.mpf(r.randint(-1500, 1500)) / 1000
-        # random polynomials of degree 2: value and derivative at t0
+        # random polynomials of degree 2 in t: values and derivatives at t0
+        polys = {}
+
         def poly():
             c = [mpmath.mpf(r.randint(-2000, 2000)) / 1000 for _ in range(3)]
-            return c[0] + c[1] * t0 + c[2] * t0 * t0, c[1] + 2 * c[2] * t0
-        vv_d, env = [], {t: t0}
-        for j in range(nv):
-            comps = [poly() for _ in range(3)]
-            vv_d.append(tuple(vecsem.Dual(a, b) for a, b in comps))
-            env[V[j]] = tuple(a for a, _ in comps)
-            env[(V[j], 1)] = tuple(b for _, b in comps)
-        sv_d = []
+            return c
+
+        def pval(c, tt):
+            return c[0] + c[1] * tt + c[2] * tt * tt
+        env = {t: t0}
+        vcoef = [[poly() for _ in range(3)] for _ in range(nv)]
+        scoef = []
         for j in range(ns):
             if j < nf:
-                a, b = poly()
-                if abs(a) < 0.2:
-                    a = a + 1
-                sv_d.append(vecsem.Dual(a, b))
-                env[S[j]] = a
-                env[(S[j], 1)] = b
+                c = poly()
+                if abs(pval(c, t0)) < 0.2:
+                    c[0] = c[0] + 1
+                scoef.append(c)
             else:
-                a = mpmath.mpf(r.randint(500, 2000)) / 1000 * r.choice([-1, 1])
-                sv_d.append(vecsem.Dual(a, 0))
-                env[S[j]] = a
+                scoef.append([mpmath.mpf(r.randint(500, 2000)) / 1000 * r.choice([-1, 1]), mpmath.mpf(0), mpmath.mpf(0)])
+        for j in range(nv):
+            env[V[j]] = tuple(pval(c, t0) for c in vcoef[j])
+            env[(V[j], 1)] = tuple(c[1] + 2 * c[2] * t0 for c in vcoef[j])
+            env[(V[j], 2)] = tuple(2 * c[2] for c in vcoef[j])
+            env[(V[j], 3)] = (mpmath.mpf(0),) * 3
+        for j in range(ns):
+            c = scoef[j]
+            env[S[j]] = pval(c, t0)
+            if j < nf:
+                env[(S[j], 1)] = c[1] + 2 * c[2] * t0
+                env[(S[j], 2)] = 2 * c[2]
+                env[(S[j], 3)] = mpmath.mpf(0)
         try:
-            want = vecsem.sem(tree, vv_d, sv_d)
-            want_d = tuple(vecsem.Dual.c(c).b for c in want) if vecsem.isvec(want) else vecsem.Dual.c(want).b
+            if order == 1:
+                vv_d = [tuple(vecsem.Dual(pval(c, t0), c[1] + 2 * c[2] * t0) for c in vcoef[j]) for j in range(nv)]
+                sv_d = [vecsem.Dual(pval(c, t0), c[1] + 2 * c[2] * t0) for c in scoef]
+                want = vecsem.sem(tree, vv_d, sv_d)
+                want_d = tuple(vecsem.Dual.c(c).b for c in want) if vecsem.isvec(want) else vecsem.Dual.c(want).b
+            else:
+                def at(tt):
+                    return vecsem.sem(tree, [tuple(pval(c, tt) for c in vcoef[j]) for j in range(nv)], [pval(c, tt) for c in scoef])
+                w0 = at(t0)
+                with mpmath.workdps(60):
+                    if vecsem.isvec(w0):
+                        want_d = tuple(mpmath.diff(lambda tt, i=i: at(tt)[i], t0, order) for i in range(3))
+                    else:
+                        want_d = mpmath.diff(at, t0, order)
             got = vecsem.interp(de, env)
         except ZeroDivisionError:
             continue
         except vecsem.Uninterpretable as x:
             rec.violation(f"deriv-uninterpretable:{skeleton(tree)}", f"derivative has no R^3 meaning: {x}; {str(de)[:200]}", case)
             return
-        good, d, sc = vecsem.close(want_d, got)
+        good, d, sc = vecsem.close(want_d, got, tol=mpmath.mpf("1e-18") if order == 1 else mpmath.mpf("1e-12"))
         nontriv = nontriv or nonzero(want_d)
         if not good:
             ok = False
@@ -303,6 +328,7 @@ def run_deriv_case(case, rec, r):
             break
     rec.case((tree, case["rank"], "diff"), nontrivial=nontriv and has_product(tree))
     rec.hit("deriv_compared")
+    rec.hit(f"deriv_order{order}")
     if ok and len(rec.samples) < 6:
         rec.sample({"tree": tree, "mode": "diff", "derivative": str(de)[:200]})
 
@@ -315,11 +341,22 @@ def make_case(r, depth, deriv=False):
     rep = r.choice([0.0, 0.15, 0.4])
     isv = r.random() < 0.4
     tree = gen_vec(r, depth, nv, ns, rep) if isv else gen_sc(r, depth, nv, ns, rep)
-    case = {"tree": tree, "nv": nv, "ns": ns, "pool": pool, "rank": rank,
+    style = r.random()
+    if style < 0.2:
+        names = ["r"] * pool            # distinct symbols sharing one display name
+    elif style < 0.3:
+        names = [r.choice(["r", "F", "v"]) for _ in range(pool)]
+    elif style < 0.4:
+        names = [None] * pool           # default generated display names
+    else:
+        names = [f"p{j}" for j in range(pool)]
+    case = {"tree": tree, "nv": nv, "ns": ns, "pool": pool, "rank": rank, "names": names,
             "assume": [r.choice(["real", "real", None, "positive", "negative"]) for _ in range(ns)]}
     if deriv:
         case["nf"] = r.randint(0, 2)
         case["mode"] = "diff"
+        case["order"] = 2 if r.random() < 0.3 else 1
+        case["names"] = None
     return case
 
 
